@@ -658,20 +658,31 @@ func (app *App) start() error {
 	return nil
 }
 
-// abortStart immediately closes the servers, and with them the
-// listeners, that a failed call to start has left behind; there
-// is nothing to be graceful about, as the config these servers
-// belong to is being rejected.
+// abortStart shuts down the servers, and with them the listeners,
+// that a failed call to start has left behind. The config these
+// servers belong to is being rejected, but they may already have
+// accepted connections on addresses they share with the running
+// config: those get their answer before the server goes away, as
+// a client cannot tell which config's server took its connection.
 func (app *App) abortStart() {
+	// one bound on the whole abort, so that a client that connected
+	// and sends nothing cannot hold up the rejection for long
+	ctx, cancel := context.WithTimeout(context.Background(), abortStartTimeout)
+	defer cancel()
+
 	for name, srv := range app.Servers {
 		if srv.server != nil {
 			// this closes every listener we have passed to Serve
-			// exactly once (even if its Serve goroutine has not
-			// been scheduled yet: Serve then closes it right away)
-			if err := srv.server.Close(); err != nil {
-				app.logger.Error("closing server after failed start",
-					zap.String("server", name),
-					zap.Error(err))
+			// exactly once, before it waits for connections (even
+			// if its Serve goroutine has not been scheduled yet:
+			// Serve then closes it right away)
+			if err := srv.server.Shutdown(ctx); err != nil {
+				// out of time: close what is left
+				if err := srv.server.Close(); err != nil {
+					app.logger.Error("closing server after failed start",
+						zap.String("server", name),
+						zap.Error(err))
+				}
 			}
 		}
 		if srv.h3server != nil {
@@ -683,6 +694,10 @@ func (app *App) abortStart() {
 		}
 	}
 }
+
+// abortStartTimeout is how long abortStart waits for the connections
+// that half-started servers have accepted to be answered.
+const abortStartTimeout = 5 * time.Second
 
 // Stop gracefully shuts down the HTTP server.
 func (app *App) Stop() error {
